@@ -128,6 +128,13 @@ fn case(srv: &mut Srv, seed: u64, res: &mut CaseResult) -> R<()> {
         res.count("histories_with_expired_uncollected_frames", 1);
     }
     let after_id: Option<Scru128Id> = if resume_kind == "after" && !pre.is_empty() { Some(pre[rng.below(pre.len())].id) } else { None };
+    if let Some(a) = after_id {
+        if rng.chance(350) {
+            // the cursor frame itself is removed before the handler starts: the cursor is still a position
+            srv.call(json!({"op": "remove", "id": a.to_string()}))?;
+            res.count("resume_after_a_removed_frame", 1);
+        }
+    }
     let resume_str = match (resume_kind, after_id) {
         ("after", Some(id)) => id.to_string(),
         ("after", None) => "head".to_string(),
